@@ -211,6 +211,7 @@ def check(ctx, report):
     repeatable_separators(ctx, report)
     header_line_spellings(ctx, report)
     spf_network_composer(ctx, report)
+    spf_term_spellings(ctx, report)
     report.floor('C18.R1', 24, 'named components')
 
 
@@ -612,3 +613,145 @@ def spf_network_composer(ctx, report, rule='C18.R7'):
                            'the network %s/%d is composed as %r, expected %r (an omitted length means /%d)' % (addr, plen, comp.text, want, mx))
     except (Unsupported, Raised) as e:
         report.add(rule, f.construct + '@tabulation', '_compose_ip_network left the subset the tabulation understands: %s' % e)
+
+
+# ---- R8: SPF terms: names in any letter case, spaces after the last term ----------------------------------------------------
+
+SPF_NAMES_REF = 'RFC 7208 4.6.1 (mechanism and modifier names are case-insensitive, as ABNF literals are) and 12 (record = version terms *SP)'
+
+
+def spf_term_spellings(ctx, report, rule='C18.R8'):
+    """(a) DnsRecordTxtValueSpfDirectiveBase._parse_qualifier_and_mechanism_name evaluated (sa.miniexec over the ParserText
+    model) for every mechanism name in its case patterns, with and without qualifier: no spelling is declined; (b) the
+    _check_name of the version and modifier components accepts every case pattern; (c) the term loop of
+    DnsRecordTxtValueSpf._parse evaluated on records with 0..3 spaces after the last term yields the same terms."""
+    from ..miniexec import Evaluator, Native, Obj, Raised, Unsupported, class_call_hook
+    from ..textmodel import TextParser, InvalidValue as MInvalidValue
+    model = ctx.model
+    report.rule(rule, 'SPF: mechanism, modifier and version names in any letter case, spaces after the last term are not a term')
+    base = model.try_cls('DnsRecordTxtValueSpfDirectiveBase')
+    top = model.try_cls('DnsRecordTxtValueSpf')
+    f = base.methods.get('_parse_qualifier_and_mechanism_name') if base is not None else None
+    if f is None or top is None or '_parse' not in top.methods:
+        report.error('%s: SPF parser functions vanished' % rule)
+        return
+    report.touch(f)
+
+    class Parser(TextParser):
+        def parse_parsable(self, name, cls_):
+            tag = getattr(getattr(cls_, 'info', None), 'name', None) or getattr(cls_, 'name', None) or str(cls_)
+            if 'Qualifier' in tag:
+                if self.data[self.pos:self.pos + 1] in (b'+', b'-', b'~', b'?'):
+                    self.values[name] = self._text(self.data[self.pos:self.pos + 1])
+                    self.pos += 1
+                    return
+                raise MInvalidValue(name)
+            if 'Version' in tag:
+                if self.data[self.pos:self.pos + 6].lower() != b'v=spf1':
+                    raise MInvalidValue(name)
+                self.values[name] = 'spf1'
+                self.pos += 6
+                return
+            # a term: everything up to the next space; an empty term is no term
+            end = self.data.find(b' ', self.pos)
+            end = len(self.data) if end < 0 else end
+            if end == self.pos:
+                raise MInvalidValue(name)
+            self.values[name] = ('term', self._text(self.data[self.pos:end]))
+            self.pos = end
+
+        def __delitem__(self, k):
+            self.values.pop(k, None)
+    # (a) mechanism names
+    mechs = ['all', 'include', 'a', 'mx', 'ptr', 'ip4', 'ip6', 'exists']
+    try:
+        for mech in mechs:
+            for q in ('', '-', '~'):
+                for sp in case_patterns(mech, ctx.thorough):
+                    report.count(rule)
+
+                    def extra(n, ev, mech=mech):
+                        d = ast.unparse(n.func)
+                        if d == 'ParserText':
+                            return Parser(ev.ev(n.args[0]))
+                        if d.endswith('get_mechanism'):
+                            return Obj(value=Obj(code=mech))
+                        return NotImplemented
+                    hook = class_call_hook(base, extra, model)
+                    ev = Evaluator({'parsable': (q + sp + ':x').encode('ascii')}, hook, hook.name_hook_for(base.module, None))
+                    try:
+                        got = ev.function(f.node)
+                    except Raised as e:
+                        report.add(rule, '%s@mechanism-case' % f.construct, 'the mechanism %r written %r is declined (%s); %s' % (mech, q + sp, e.what[:40], SPF_NAMES_REF))
+                        raise StopIteration
+                    if not isinstance(got, Parser) or got.pos != len(q + sp):
+                        report.add(rule, '%s@mechanism-case' % f.construct, 'after %r the parser stands at %s, expected %d' % (q + sp, getattr(got, 'pos', None), len(q + sp)))
+                        raise StopIteration
+    except StopIteration:
+        pass
+    except Unsupported as e:
+        report.add(rule, f.construct + '@tabulation', 'the mechanism name parser left the subset the tabulation understands: %s' % e)
+    # (b) version and modifier names
+    for cname, nm in (('DnsRecordTxtValueSpfVersion', 'v'), ('DnsRecordTxtValueSpfModifierRedirect', 'redirect'), ('DnsRecordTxtValueSpfModifierExplanation', 'exp')):
+        c = model.try_cls(cname)
+        g = c.resolve('_check_name') if c is not None else None
+        report.count(rule)
+        if g is None:
+            report.error('%s: %s._check_name vanished' % (rule, cname))
+            continue
+        report.touch(g)
+        rejected = []
+        try:
+            for v in case_patterns(nm, ctx.thorough):
+                hk = class_call_hook(c, lambda n, ev, nm=nm: nm if ast.unparse(n.func).endswith('get_canonical_name') else NotImplemented, model)
+                try:
+                    Evaluator({[a.arg for a in g.node.args.args][-1]: v}, hk, hk.name_hook_for(c.module, None)).function(g.node)
+                except Raised:
+                    rejected.append(v)
+        except Unsupported:
+            rejected = None
+        if rejected is None:
+            report.add(rule, '%s@name[%s]' % (c.construct, nm), 'the name check of %s is not tabulable' % cname)
+        elif rejected:
+            report.add(rule, '%s@name[%s]' % (c.construct, nm), 'the name %r is not recognised in the spelling(s) %s; %s' % (nm, rejected[:4], SPF_NAMES_REF))
+    # (c) spaces after the last term
+    g = top.methods['_parse']
+    report.touch(g)
+    try:
+        want = None
+        for tail in ('', ' ', '  ', '   '):
+            report.count(rule)
+            box = {}
+
+            def extra2(n, ev):
+                d = ast.unparse(n.func)
+                if d == 'ParserText':
+                    return Parser(ev.ev(n.args[0]))
+                if d == 'cls':
+                    kw = {k.arg: ev.ev(k.value) for k in n.keywords}
+                    box['terms'] = list(kw.get('terms', []))
+                    return ('record', tuple(box['terms']))
+                return NotImplemented
+            hook = class_call_hook(top, extra2, model)
+
+            def names(nm):
+                r = model.resolve_name(top.module, nm)
+                if r is not None:
+                    return Obj(name=nm)
+                raise Unsupported('free name ' + nm)
+            ev = Evaluator({'parsable': ('v=spf1 mx -all' + tail).encode('ascii')}, hook, hook.name_hook_for(top.module, names))
+            try:
+                ev.function(g.node)
+            except Raised as e:
+                report.add(rule, '%s@trailing-space' % g.construct, 'the record %r is not read like the record without the trailing space(s): the space run after the last term is taken for the start of another term (%s); %s' % ('v=spf1 mx -all' + tail, e.what[:40], SPF_NAMES_REF))
+                break
+            terms = box.get('terms')
+            if want is None:
+                want = terms
+            if terms != want or terms is None or len(terms) != 2:
+                report.add(rule, '%s@trailing-space' % g.construct, 'the record %r yields %d terms (%s), the record without the trailing space(s) %d; %s' % (
+                    'v=spf1 mx -all' + tail, len(terms or []), [t[1] if isinstance(t, tuple) else t for t in (terms or [])][-2:], len(want or []), SPF_NAMES_REF))
+                break
+    except Unsupported as e:
+        report.add(rule, g.construct + '@tabulation', 'the SPF record parser left the subset the tabulation understands: %s' % e)
+    report.floor(rule, 60, 'spellings')
